@@ -630,6 +630,8 @@ PAIR_TYPES = [
     "RigidBody", "PointMass", "Frame", "Revolute", "Spherical", "RigidConnection", "Prismatic", "Cylindrical",
     "FixedDistance", "Force", "B_Force", "Moment", "Spring_h", "Spring_c", "KelvinVoigt_c", "Maxwell", "Motor", "PD",
     "PID", "S2P_mu0", "S2P_mu", "S2S", "Rod", "RodTipForce", "Synth", "SynthLink",
+    # force law between two points of the SAME body: the contribution lists the body's coordinates twice (repeated indices must be summed)
+    "SelfSpring",
 ]
 
 
@@ -726,6 +728,9 @@ class PairContext:
         tpi = lambda a, b: TwoPointInteraction(o(a), o(b), B_r_CP1=np.array([0.1, 0.0, 0.2]) if a != "P" else np.zeros(3), B_r_CP2=np.array([0.0, -0.1, 0.1]))
         if tname == "Spring_h":
             return AB + [Item(tname, fl.Spring(tpi("A", "B"), 30.0, l_ref=1.5, compliance_form=False, name="spring_h"), ("A", "B"), _two("A", "B"))]
+        if tname == "SelfSpring":
+            tp = TwoPointInteraction(o("A"), o("A"), B_r_CP1=np.array([0.5, 0.0, 0.1]), B_r_CP2=np.array([0.0, 0.7, 0.2]))
+            return g("A") + [Item(tname, fl.Spring(tp, 10.0, l_ref=0.3, compliance_form=False, name="self_spring"), ("A",), _two("A", "A"))]
         if tname == "Spring_c":
             return AB + [Item(tname, fl.Spring(tpi("B", "A"), 40.0, l_ref=1.2, compliance_form=True), ("A", "B"), _two("B", "A"))]
         if tname == "KelvinVoigt_c":
@@ -768,7 +773,7 @@ class PairContext:
 # ------------------------------------------------------------------------------------------------
 # C16: mechanisms x attachments x contacts x initial states
 # ------------------------------------------------------------------------------------------------
-MECHS = ["free", "pendulum", "double_pendulum", "slider", "pm_fixed_distance", "rigid_pair", "synth"]
+MECHS = ["free", "pendulum", "double_pendulum", "slider", "pm_fixed_distance", "rigid_pair", "synth", "mixed_rod", "belt"]
 ATTACH = ["none", "gravity", "spring_h", "spring_c", "kelvin_voigt_c", "maxwell", "motor", "pd", "pid"]
 CONTACTS = ["none", "rest_mu0", "stick_mu", "slide_mu", "open_mu", "two_spheres", "two_spheres_slide", "accel_plane", "spin_offcentre",
             "ceiling_mu", "ceiling_mu0", "incline_stick", "open_then_stick",
@@ -778,6 +783,11 @@ CONTACTS = ["none", "rest_mu0", "stick_mu", "slide_mu", "open_mu", "two_spheres"
             "slide_aniso",
             # closed but separating contact (g_N = 0, g_N_dot > 0): not persistent, must stay force-free (seeded C16-i)
             "leaving_mu",
+            # a closed FRICTIONLESS contact of a heavier ball registered before the sliding frictional one (the k-th active friction law
+            # is not the k-th active normal contact; normal forces differ; seeded C16-j)
+            "frictionless_then_slide",
+            # slow sliding (|gamma_F| = 2.2e-4 and 3e-7): still sliding, the friction force has full magnitude
+            "slide_slow", "slide_tiny",
             # a closed contact on the mechanism's own tip body: the contact force loads the joints (seeded C16-f)
             "tip_plane_mu0", "tip_plane_mu"]
 INITS = ["rest", "spin"]
@@ -888,6 +898,40 @@ def build_c16(case):
         contr += [b1, b2, joint]
         bodies += [(b1, 1.3), (b2, 0.8)]
         tip = b2
+    elif mech == "mixed_rod":
+        # clamped mixed (compliance-form) rod whose reference is NOT arc-length parametrised (stretch varies along every element),
+        # started pre-strained (q0 != Q): la_c0 comes from the rod's force-form la_c(), element by element (seeded C16-k)
+        from cardillo.rods import RectangularCrossSection, Simo1986, CrossSectionInertias
+        from cardillo.rods.cosseratRod import make_CosseratRod
+        from vp.scen import rods as RR
+
+        Rod = make_CosseratRod(interpolation="Quaternion", mixed=True, polynomial_degree=2)
+        L = 1.2
+        Q = np.asarray(Rod.pose_configuration(3, lambda xi: np.array([L * (xi + 0.6 * xi * xi) / 1.6, 0.0, 2.0]), lambda xi: np.eye(3)), float)
+        rod = Rod(RectangularCrossSection(0.1, 0.2), Simo1986(np.array([5.0, 1.3, 2.1]), np.array([0.6, 0.9, 1.4])), 3, Q=Q.copy(), q0=Q.copy(),
+                  cross_section_inertias=CrossSectionInertias(A_rho0=1.3, B_I_rho0=np.diag([0.02, 0.01, 0.015])), name="rod")
+        q0 = RR.base_states(rod, Q, seed)[1][1]
+        # keep the clamped cross-section where the clamp is defined
+        for dofs in (rod.nodalDOF_r[0], rod.nodalDOF_p[0]):
+            q0[dofs] = Q[dofs]
+        rod.q0 = q0.copy()
+        if spin:
+            rod.u0 = 0.3 * weyl(seed, 9, rod.nu)
+            rod.u0[rod.nodalDOF_r_u[0]] = 0.0
+            rod.u0[rod.nodalDOF_p_u[0]] = 0.0
+        clamp = cn.RigidConnection(O, rod, xi2=0, name="clamp")
+        contr += [rod, clamp]
+        tip = None
+    elif mech == "belt":
+        # block on a moving belt: friction element with a constant force reservoir and no unilateral contact (nla_N = 0, nla_F = 1);
+        # init 'rest' = block slower than the belt (sliding), 'spin' = block moving with the belt (sticking)
+        from vp.props.c21 import _Belt
+
+        bl = _Belt()
+        if spin:
+            bl.u0 = np.array([bl.u_b])
+        contr += [bl]
+        tip = None
     elif mech == "synth":
         contr += [Synth(k=seed % 5, with_contact=False)]
     else:
@@ -947,10 +991,20 @@ def build_c16(case):
             contr += [ball0, fo.Force(np.array([0.0, 0.0, -mb * GRAV]), ball0, name="ball0_load"),
                       co.Sphere2Plane(O, ball0, mu=0.3, r=rad, e_N=0.0, e_F=0.0, name="ball0_plane")]
             mus["ball0_plane"] = 0.3
-        if con == "slide_mu":
+        if con in ("slide_mu", "frictionless_then_slide"):
             v = np.array([0.7, -0.4, 0.0])
+        if con == "frictionless_then_slide":
+            m0 = 3.0 * mb
+            ball0 = _rb(m0, [0.4 * m0 * rad**2] * 3, [-1.0, 2.0, rad], [1.0, 0, 0, 0], name="ball0")
+            contr += [ball0, fo.Force(np.array([0.0, 0.0, -m0 * GRAV]), ball0, name="ball0_load"),
+                      co.Sphere2Plane(O, ball0, mu=0.0, r=rad, e_N=0.0, name="ball0_plane")]
+            mus["ball0_plane"] = 0.0
         if con == "slide_aniso":
             v = np.array([0.7, -0.4, 0.0])
+        if con == "slide_slow":
+            v = np.array([2e-4, -1e-4, 0.0])
+        if con == "slide_tiny":
+            v = np.array([3e-7, 0.0, 0.0])
         if con == "leaving_mu":
             v = np.array([0.2, -0.1, 0.3])
         if con == "slide_x":
